@@ -3,7 +3,7 @@ import glob, json, os, re
 from vlib import VERIF, REPO, load_known, read_ndjson, write_ndjson, pmap, Infra, NCPU
 
 ASSUME = [
-    "layout transformations are implemented on patch text in lib/prop_c13.py (T1 comment lines, T2 blank lines, T3 naming the change, T4 renaming metavariables that do not name imports, T5 regrouping/reordering/;-joining declarations, T6 re-spacing both sides identically, T7 context line <-> identical -/+ pair on elision-free lines, T8 context line without its space prefix)",
+    "layout transformations are implemented on patch text in lib/prop_c13.py (T1 comment lines, T2 blank lines, T3 naming the change, T4 renaming metavariables that do not name imports, T5 regrouping/reordering/;-joining declarations, T6 re-spacing both sides identically, T7 context line <-> identical -/+ pair on elision-free lines, T8 context line without its space prefix, T9 context line wrapped after its commas)",
     "results are compared as terms of harness/alpha.go (syntax trees without positions and comments); errors are compared as error / no error",
     "patches with more than one '...' per side are not re-spaced (their association is documented as layout dependent, README known issue #9)",
 ]
@@ -97,6 +97,10 @@ EXTRA_CASES = [
          src="package a\n\nfunc f() {\n\tfirst()\n\tsecond()\n\tfoo()\n\tlast()\n}\n"),
     dict(name="extra/elision-between", patch="@@\nvar x identifier\n@@\n x := open()\n ...\n-x.close()\n+x.Close()\n",
          src="package a\n\nfunc f() {\n\tp := open()\n\tuse(p)\n\tmore(p)\n\tp.close()\n\tlast()\n}\n"),
+    dict(name="extra/two-elisions-one-line", patch="@@\n@@\n-foo(\n+bar(\n ..., ctx, ...)\n",
+         src="package a\n\nfunc f() {\n\tfoo(1, ctx, 2)\n\tfoo(ctx)\n\tfoo(a, b)\n\tfoo(a, b, ctx)\n}\n"),
+    dict(name="extra/two-elisions-one-line-ctx", patch="@@\n@@\n-foo(...)\n+foo2(...)\n bar(..., ctx, ...)\n",
+         src="package a\n\nfunc f() {\n\tfoo(1, 2)\n\tbar(3, ctx, 4, 5)\n}\n\nfunc g() {\n\tfoo()\n\tbar(ctx)\n}\n"),
     dict(name="extra/decrement-stmt", patch="@@\nvar i identifier\n@@\n i--\n-work(i)\n+work2(i)\n i++\n",
          src="package a\n\nfunc f(n int) {\n\tn--\n\twork(n)\n\tn++\n}\n"),
 ]
@@ -291,7 +295,22 @@ def t8_unprefix(lines, changes, rng):
     return out if did else None
 
 
-TRANSFORMS = {"T8": t8_unprefix, "T1": t1_comments, "T2": t2_blank, "T3": t3_name, "T4": t4_rename, "T5": t5_regroup, "T6": t6_respace, "T7": t7_pair}
+def t9_rewrap(lines, changes, rng):
+    """A context line belongs to both sides, so wrapping it after its commas re-wraps both sides identically
+    (Go allows a line break after every comma)."""
+    out = list(lines)
+    did = False
+    for c in reversed(changes):
+        for i in reversed(c["body"]):
+            ln = out[i]
+            if ln.startswith(" ") and ", " in ln and not any(q in ln for q in "\"`'") and "//" not in ln:
+                parts = ln[1:].split(", ")
+                out[i:i + 1] = [" " + p + ("," if k < len(parts) - 1 else "") for k, p in enumerate(parts)]
+                did = True
+    return out if did else None
+
+
+TRANSFORMS = {"T9": t9_rewrap, "T8": t8_unprefix, "T1": t1_comments, "T2": t2_blank, "T3": t3_name, "T4": t4_rename, "T5": t5_regroup, "T6": t6_respace, "T7": t7_pair}
 
 
 def variants(ctx, text, n):
